@@ -142,3 +142,4 @@ def priority(ctx) -> None:
 def run(ctx) -> None:
     sibling(ctx)
     priority(ctx)
+    shared.argname_scope(ctx, ('forml.io._input', 'forml.setup._provider'), floor=2)
